@@ -9,7 +9,7 @@ KNOWN_FILE = os.path.join(VERIF, "known_findings.json")
 
 # rules whose verdict is computed by an engine in a semantic domain wherever they are emitted from: resolved pool
 # sites and consumers (P*), exception / path-class flow (W*, X*), scoped loop-state lints, level-loop ranges
-SEMANTIC_RULES = {"P1", "P2", "P3", "P3-GLOBALS", "P3-ARG-MUTATION", "P3-MODULE-REF", "P7", "X1", "X2", "X3",
+SEMANTIC_RULES = {"P1", "P1b", "P2", "P3", "P3-GLOBALS", "P3-ARG-MUTATION", "P3-MODULE-REF", "P7", "X1", "X2", "X3",
                   "W0", "W1", "W2", "W3", "LOOP-STATE", "LEVEL-RANGE", "U1", "U2", "U4", "U5"}
 
 
@@ -59,6 +59,16 @@ class Ctx:
         else:
             self.unknown(rule, site, (why_unknown or "construct not recognised") + ": " + (what_bad or what_ok), key, where)
         return cond
+
+    def attempt(self, fn, *a, **kw):
+        """run one rule (group); an obligation it cannot evaluate is recorded as undecided and the remaining rules of
+        the check still run (a positive violation elsewhere must not be hidden behind an analysis error)"""
+        from .model import AnalysisError
+        try:
+            return fn(*a, **kw)
+        except AnalysisError as e:
+            self.unknown(e.rule, e.site, e.reason)
+            return None
 
     def info(self, rule, site, what, key=""):
         self.results.append(dict(rule=rule, site=site, key=key, verdict="info", witness=what))
